@@ -325,6 +325,43 @@ def seq_programs(tier, seed, wd, P):
     return progs, stats
 
 
+def slot_programs():
+    """Sequential programs around the re-use of a borrow slot (C14/C02/C10): a guard whose debt was paid by a write, its slot taken by
+    a younger guard (after j intermediate loads that rotate the slot search, or because 7 guards on another container leave one slot),
+    then every way of ending the old guard, then another write."""
+    def new():
+        return {"new": {"pd": False}}
+    progs = []
+    for pad in (None, 1, 2):
+        for j in range(0, 10) if pad is None else (0, 1):
+            for write in ("store", "swap", "cas"):
+                for end in ("into_inner", "drop_g", "keep"):
+                    ops = [{"op": "new", "c": 0, "v": new()}, {"op": "new", "c": 1, "v": new()}]
+                    if pad is not None:
+                        ops.append({"op": "pad", "c": 1, "free": pad, "base": 300})
+                    ops.append({"op": "load", "c": 0, "g": 1})
+                    if write == "store":
+                        ops.append({"op": "store", "c": 0, "v": new()})
+                    elif write == "swap":
+                        ops += [{"op": "swap", "c": 0, "v": new(), "h": 9}, {"op": "drop_h", "h": 9}]
+                    else:
+                        ops += [{"op": "cas", "c": 0, "cur": {"gref": 1}, "v": new(), "g": 8}, {"op": "drop_g", "g": 8}]
+                    for _ in range(j):
+                        ops += [{"op": "load", "c": 0, "g": 2}, {"op": "drop_g", "g": 2}]
+                    ops.append({"op": "load", "c": 0, "g": 3})
+                    if end == "into_inner":
+                        ops += [{"op": "into_inner", "g": 1, "h": 1}]
+                    elif end == "drop_g":
+                        ops += [{"op": "drop_g", "g": 1}]
+                    ops += [{"op": "store", "c": 0, "v": new()}, {"op": "deref_g", "g": 3}, {"op": "drop_g", "g": 3}]
+                    if end == "into_inner":
+                        ops += [{"op": "deref_h", "h": 1}, {"op": "drop_h", "h": 1}]
+                    elif end == "keep":
+                        ops += [{"op": "deref_g", "g": 1}, {"op": "drop_g", "g": 1}]
+                    progs.append(ops)
+    return progs
+
+
 def seq_stage(tier, seed, key, P):
     import json, os, time
     wd = os.path.join(P.CACHE, "%s-%s-%d-seq" % (key, tier, seed))
@@ -334,6 +371,9 @@ def seq_stage(tier, seed, key, P):
     os.makedirs(wd, exist_ok=True)
     t0 = time.time()
     progs, stats = seq_programs(tier, seed, wd, P)
+    sp = slot_programs()
+    stats["slot_reuse_programs"] = len(sp)
+    progs = progs + sp
     jobs = []
     for i, ops in enumerate(progs):
         for strat in ("default", "nofast", "rwlock"):
